@@ -147,7 +147,7 @@ def gen_orders(ctx, shapes, thorough, nw):
     if big:
         text = GEN_MOD % dict(name="ScanGenB", shapes=", ".join(tla_seq(s) for s in big),
                               wexpr="TRUE THEN W ELSE W")
-        per_worker = max(1, ((40 if thorough else 12) * len(big)) // nw + 1)
+        per_worker = max(1, ((25 if thorough else 12) * len(big)) // nw + 1)
         g = ctx.tlc("ScanGenB", "c11_genb.cfg", files={"ScanGenB.tla": text, "c11_genb.cfg": GEN_CFG % "2, 3, 8"},
                     workers=nw, simulate=per_worker, depth=400, deadlock=False, timeout=3000, tag="gen-orders-simulated")
         stats.append(g)
@@ -190,7 +190,7 @@ def run(ctx, cases_override=None):
     if cases_override is None:
         g = ctx.tlc("ScanInput", "c11_in.cfg", files={"c11_in.cfg": INPUT_CFG % (3 if th else 2, KINDS)}, workers=4, timeout=3000, tag="gen-inputs")
         inputs = [v[0] for v in prints(g, "CASE")]
-        g2 = ctx.tlc("ScanInput", "c11_in2.cfg", files={"c11_in2.cfg": INPUT_CFG % (6, KINDS)}, workers=4, simulate=(150 if th else 12),
+        g2 = ctx.tlc("ScanInput", "c11_in2.cfg", files={"c11_in2.cfg": INPUT_CFG % (6, KINDS)}, workers=4, simulate=(50 if th else 12),
                      depth=7, deadlock=False, timeout=3000, tag="gen-inputs-long")
         longer = [v[0] for v in prints(g2, "CASE") if len(v[0]["rules"]) > (3 if th else 2)]
         seen, uniq = set(), []
